@@ -15,6 +15,7 @@ pub mod c15;
 pub mod c16;
 pub mod c17;
 pub mod c18;
+pub mod c19;
 pub mod c20;
 
 use crate::infra::{CheckResult, Ctx};
@@ -41,6 +42,7 @@ pub fn run(ctx: &Ctx, replay: Option<&J>) -> Option<CheckResult> {
         "C16" => c16::run(ctx, replay),
         "C17" => c17::run(ctx, replay),
         "C18" => c18::run(ctx, replay),
+        "C19" => c19::run(ctx, replay),
         "C20" => c20::run(ctx, replay),
         _ => return None,
     })
